@@ -50,11 +50,13 @@ def compute_dmdelays(
         returns a 2D array with shape ``(len(dm), len(freqs))``.
     """
     freqs = np.atleast_1d(freqs).astype(np.float32)
+    scalar_dm = np.ndim(dm) == 0
     dm = np.atleast_1d(dm)[:, np.newaxis].astype(np.float32)
     delays = dm * DM_CONSTANT_LK * ((freqs**-2) - (ref_freq**-2))
     if in_samples:
         delays = (delays / tsamp).round().astype(np.int32)
-    return delays.squeeze()
+    # 1D (one delay per channel) for a scalar DM, 2D (len(dm), len(freqs)) otherwise
+    return delays[0] if scalar_dm else delays
 
 
 def compute_dmsmearing(
